@@ -4,7 +4,9 @@ from harness.mq import gen_group, evaluate, cases_from_replay
 from harness.mqoracle import oracle_c13, oracle_c12
 
 ASSUMPTIONS = [
-    'workloads over the configured flows; priorities are positive integers; sizes positive integers; rate > 0; `out` attached',
+    'workloads over the configured flows; priorities are positive numbers (whole numbers, and in 30% of the tables quarters sharing an integer part, values below 1, values beyond 2**31); sizes positive integers; rate > 0; `out` attached',
+    'a table with priorities that are not whole numbers is handed to the model as the ranks of its values (the property and the model use only their order); the direct oracle compares the real values',
+    'in 20% of the cases size()/byte_size()/all_flows() of every configured flow are read before the first arrival and between arrivals; those instances are judged by the direct oracles only (a read makes a flow show up in all_flows() before its first packet)',
     'the start of a transmission is the scheduler\'s decision burst (DESIGN section 3): a packet arriving later in the same instant is not "waiting at the start"',
     'theorems are over exact rationals; the replay compares IEEE doubles bit for bit',
     'the SP process on the real kernel refines the MultiQueueServer LTS: checked by replay (labels from Process.target and the sender process); '
@@ -16,7 +18,7 @@ TRUSTED_EXTRA = ['the kernel guarantees (G1-G3) that make `tick` admissible only
 
 
 def gen(rng, n):
-    return [gen_group(rng, i, 'sp', backlog=rng.random() < 0.6, share=0.35) for i in range(n)]
+    return [gen_group(rng, i, 'sp', backlog=rng.random() < 0.6, share=0.35, poll=0.2, real_prio=0.3) for i in range(n)]
 
 
 # ---- BEGIN spk leg: SP as processes on the kernel MODEL (lean/OnlVerif/Net/SPOnK.lean, driver mode `spk`) ----
